@@ -205,7 +205,8 @@ class Interposer:
         builtins.open = my_open
         io.open = my_open
         os.stat = my_stat
-        os.mkdir = my_mkdir
+        if not os.environ.get("VERIF_SELFTEST_NO_MKDIR_HOOK"):      # selftest of harness/strace_audit.py only
+            os.mkdir = my_mkdir
         os.unlink = my_unlink
         os.rename = my_rename
         os.replace = my_rename
